@@ -31,6 +31,7 @@ enum Item {
     ExpiredWin,  // newest generation of k1 carries a lapsed expiry (v2 only)
     Marker,      // token-style complete marker over one block
     Marker2,     // token-style marker over two blocks
+    MarkerTornTail, // complete two-block marker head whose tail block was never stamped and still looks like a record
     LegacyMark,  // ambiguous legacy marker
     LegacyOverCont, // legacy marker followed by what looks like a record (continuation of a deleted multi-block value)
     JournalOne,  // active journal entry covering the next record
@@ -40,7 +41,7 @@ enum Item {
     Grown,       // the file was grown after creation: the header's device size ends here, what follows lies beyond it
 }
 
-const ITEMS: [Item; 14] = [
+const ITEMS: [Item; 15] = [
     Item::Rec1,
     Item::Rec2,
     Item::OlderDup,
@@ -48,6 +49,7 @@ const ITEMS: [Item; 14] = [
     Item::ExpiredWin,
     Item::Marker,
     Item::Marker2,
+    Item::MarkerTornTail,
     Item::LegacyMark,
     Item::LegacyOverCont,
     Item::JournalOne,
@@ -98,6 +100,13 @@ fn synth(version: u32, items: &[Item]) -> Vec<u8> {
                 l::put(&mut img, at, &l::encode_marker(at, 2, 1));
                 l::put(&mut img, at + 1, &l::encode_marker(at + 1, 1, 1));
                 at += 2;
+            }
+            Item::MarkerTornTail => {
+                // the head says "two blocks retired, complete"; the tail stamp is missing and the block
+                // still holds what looks like a record: the whole extent is retired all the same
+                l::put(&mut img, at, &l::encode_marker(at, 2, 1));
+                at += 1;
+                put(&mut img, &mut at, b"ghost2", b"tail of a retired extent".to_vec(), 9500, 0);
             }
             Item::LegacyMark => {
                 l::put(&mut img, at, &l::encode_legacy_marker());
